@@ -487,6 +487,9 @@ def registry(ctx, prog, cipher):
             idx = key_round(prog, kf, cmod)
             if idx is None:
                 ctx.undecided('C07-D1', f'{key}::expected key', f'{kf.name} is not `key_schedule(key)[k]` of {cmod}', kf.where())
+            elif isinstance(idx, tuple):
+                ctx.fail('C07-D1', f'{key}::expected key', f'{kf.name} schedules `{idx[1][:60]}`, a selected part of the key metadata, not the key as given: with one key per trace the expected key '
+                         'of the other traces is never computed (the true key the scores are ranked against is the first trace\'s only)', kf.where())
             else:
                 want_idx = 0 if tagp == 'plaintext_tag' else -1
                 if cipher == 'des' and idx == 15:
@@ -554,6 +557,8 @@ def key_round(prog, kf, cmod):
     if not (isinstance(base, cf.Sym) and base.term and base.term[0] == 'call' and base.term[1] == ks.name):
         return None
     args = list(base.term[2]) + [v for _, v in base.term[3]]
+    if len(args) == 1 and isinstance(args[0], cf.Sym) and args[0].name != 'key' and args[0].term and args[0].term[0] == 'index' and args[0].name.startswith('key'):
+        return ('partial', args[0].name)          # the schedule of a selected part of the key metadata
     if len(args) != 1 or not (isinstance(args[0], cf.Sym) and args[0].name == 'key'):
         return None
     if not isinstance(k, int) or isinstance(k, bool):
